@@ -387,6 +387,47 @@ def judge_sequences(chk, qlines, stats):
     stats["timeout_sequence_conversions_interrupted"] = nint
 
 
+def judge_pfunc(chk, plines, stats):
+    """P lines: the real Array_Partial_Function_Wrapper on every array over {u,0..3} of length <= 4, against the Coq
+    model CIface/PFunc.v evaluated by vm_compute."""
+    rows = [ln.split("|") for ln in plines]
+    rows = [f for f in rows if len(f) >= 5]
+    if len(rows) < 700:
+        chk.broken.append(("pfunc", "only %d P lines" % len(rows)))
+        return
+    def coq_arr(a):
+        return "[%s]" % "; ".join("None" if c == "u" else "Some %s" % c for c in a)
+    src = ["From Coq Require Import List Arith.", "Require Import PPLV.CIface.PFunc.", "Import ListNotations.",
+           "Definition o2n (o : option nat) : nat := match o with Some j => S j | None => 0 end.",
+           "Definition ev (v : pfun) : list nat := (if has_empty_codomain v then 1 else 0) :: max_in_codomain v :: map (fun i => o2n (maps v i)) (seq 0 (S (length v))).",
+           "Eval vm_compute in map ev ["]
+    src.append(";\n".join("  " + coq_arr(f[1]) for f in rows))
+    src.append("].")
+    fn = os.path.join(common.BUILD, "cif_pf_%d.v" % os.getpid())
+    open(fn, "w").write("\n".join(src) + "\n")
+    rc, out = common.sh(["coqc", "-Q", common.COQ, "PPLV", fn], timeout=900)
+    for ext in (".v", ".vo", ".vok", ".vos", ".glob"):
+        try: os.remove(fn[:-2] + ext)
+        except OSError: pass
+    try: os.remove(os.path.join(common.BUILD, ".cif_pf_%d.aux" % os.getpid()))
+    except OSError: pass
+    body = out.split("=", 1)[1].rsplit(":", 1)[0] if rc == 0 and "=" in out else ""
+    groups = re.findall(r"\[([0-9;\s]*)\]", body.strip()[1:-1] if body.strip().startswith("[") else body)
+    vals = [[int(x) for x in g.replace(";", " ").split()] for g in groups]
+    if len(vals) != len(rows):
+        chk.broken.append(("pfunc-model", "%d model rows for %d arrays: %s" % (len(vals), len(rows), out[-600:])))
+        return
+    for f, v in zip(rows, vals):
+        arr, e, mx, mp = f[1], f[2], f[3], f[4]
+        exp_e = str(v[0]); exp_mx = "-" if v[0] == 1 else str(v[1]); exp_mp = "".join("u" if x == 0 else str(x - 1) for x in v[2:])
+        chk.count(1, key=("pfunc", arr))
+        if (e, mx, mp) != (exp_e, exp_mx, exp_mp):
+            chk.failure({"site": "Array_Partial_Function_Wrapper", "condition": "partial-function-wrapper-differs"},
+                        {"array": arr, "legend": "u = not_a_dimension()", "has_empty_codomain": e, "max_in_codomain": mx, "maps": mp,
+                         "model": {"has_empty_codomain": exp_e, "max_in_codomain": exp_mx, "maps": exp_mp}})
+    stats["pfunc_arrays"] = len(rows)
+
+
 def run(chk):
     chk.rule = ("cases = (entry point of the regenerated C interface, argument variant: one valid tuple per object recipe + one "
                 "ill-formed argument at a time, + bad_alloc at the first allocation inside the entry); a case is counted as "
@@ -410,7 +451,7 @@ def run(chk):
             (len(facts["entries"]), len(facts["protos"]), len(doms), nchains, len(dangling)))
     nstatic = static_part(chk, facts, objs)
     chk.count(nstatic)
-    ok = chk.prove(["CIface/Exn.v", "CIface/Entries.v", "CIface/Spec.v", "gen/Facts_CIface.v", "CIface/C20.v", "CIface/TimeoutSpec.v", "CIface/Timeouts.v"])
+    ok = chk.prove(["CIface/Exn.v", "CIface/Entries.v", "CIface/Spec.v", "gen/Facts_CIface.v", "CIface/C20.v", "CIface/TimeoutSpec.v", "CIface/Timeouts.v", "CIface/PFunc.v"])
     # refutations of the full statements (not audited obligations: they disappear when upstream fixes the defects)
     okr, outr = common.coq_make(["CIface/Refuted_C20.vo"])
     chk.extra["refutations_compile"] = bool(okr)
@@ -418,7 +459,7 @@ def run(chk):
         chk.log("note: CIface/Refuted_C20.v no longer compiles (a known defect was fixed?): %s" % outr[-300:].replace("\n", " "))
     if not ok:
         # the theorems no longer hold on the regenerated facts: still look for a concrete failing input
-        okf, _ = common.coq_make(["CIface/Spec.vo", "CIface/TimeoutSpec.vo", "gen/Facts_CIface.vo"])
+        okf, _ = common.coq_make(["CIface/Spec.vo", "CIface/TimeoutSpec.vo", "CIface/PFunc.vo", "gen/Facts_CIface.vo"])
         if not okf:
             return
 
@@ -481,6 +522,20 @@ def run(chk):
             if f[2] == "valid" and f[3] != "same":
                 chk.failure({"site": "ppl_io_wrap_string", "condition": "return-value-differs"}, {"line": ln})
     judge_sequences(chk, [l for l in out.split("\n") if l.startswith("Q")], stats)
+    judge_pfunc(chk, [l for l in out.split("\n") if l.startswith("P|")], stats)
+    for ln in out.split("\n"):
+        f = ln.split("|")
+        if f[0] == "N" and len(f) >= 6:
+            chk.failure({"site": f[1], "condition": "printed-text-differs"},
+                        {"entry": f[1], "variable_index": f[2], "return": f[3], "printed": f[4], "cxx_operator_output_default_names": f[5],
+                         "meaning": "in a sequence of prints over variables 0,25,26,27,51,52,700,... the text differs from the C++ operator<< with the default variable names"})
+        if f[0] == "N0":
+            m = re.match(r"N0\|printed=(\d+)\|different=(\d+)", ln)
+            if m:
+                stats["printed_texts_compared"] = int(m.group(1))
+                chk.count(int(m.group(1)), key=("print-sequences", m.group(2)))
+    if "printed_texts_compared" not in stats:
+        chk.broken.append(("print-sequences", "no N0 line in the harness output"))
     stats["oom_left_object_not_OK"] = sorted(stats["oom_left_object_not_OK"])
     stats["entries_driven"] = len(set(driven)); stats["entries_not_driven"] = len(set(undriven))
     stats["domains_driven"] = pick
